@@ -1,18 +1,16 @@
-SPECIFICATION Spec
+SPECIFICATION TSpec
 CONSTANTS
-  MaxOut = 2
-  MaxFlaps = 2
-  MaxCrashes = 1
+  MaxOut = 1
+  MaxFlaps = 6
+  MaxCrashes = 2
   ClientOps = {"cancel", "release", "frelease"}
   RestartIfIdKnown = FALSE
   StdoutFromZero = FALSE
   ReleaseSkipsRemote = FALSE
+  RTraceFile = "rw_trace.ndjson"
 INVARIANTS
   ForwardOnly
   NeverContradictsE
-  LocalOutputIsPrefix
   SubmittedOnce
-  NeverStartedIsFailed
-  CancelSurvivesRestart
-  ReleaseRemovesBoth
-  ForcedReleaseRemovesLocal
+POSTCONDITION RTraceAccepted
+CHECK_DEADLOCK FALSE
